@@ -11,15 +11,9 @@ Variable cb : cb_oracle.
 Variable g : cfg.
 Hypothesis Hcb : wr_all_ok cb.
 Hypothesis Hspace : g_allow_space_uri g = false.
-
-(* the invariant of PWireGlue (status OPEN, nothing buffered) is an instance *)
-Lemma sg_cin_of_inv c d rd cs st prev rh t : wr_inv c d rd cs st prev rh t -> (cs <= rd)%nat -> (rd <= length d)%nat ->
-  sg_cin c d rd (firstn (rd - cs) (skipn cs d)) None st prev rh t.
-Proof.
-  intros [Hst Hs Hp Hd Hl Hr Hc Hb Hh Hrh Hrc Ht Htxs Hshift] H1 H2.
-  constructor; try assumption; try (left; assumption); try lia.
-  rewrite Hb, Hc. reflexivity.
-Qed.
+Context {w : sg_world}.
+Notation sg_cin := (sg_cinw w).
+Notation sg_mid := (sg_midw w).
 
 (* ---- REQ_LINE: scanning for the LF ---- *)
 Lemma sg_line_scan_nolf d hdr prev rh t : forall u c rd p n,
@@ -27,14 +21,14 @@ Lemma sg_line_scan_nolf d hdr prev rh t : forall u c rd p n,
   exists c', REQ_LINE_loop cb g n c = (ST_DATA_BUFFER, c') /\ sg_cin c' d (length d) (p ++ u) hdr REQ_LINE prev rh t.
 Proof.
   induction u as [|b u IH]; intros c rd p n H Hu Hnl Hn.
-  - pose proof (sg_skipn_nil d rd Hu) as L. pose proof H as [A1 A2 A3 A4 A5 A6 A7 A8 A9 A10 A11 A12 A13 A14 A15].
+  - pose proof (sg_skipn_nil d rd Hu) as L. pose proof H as [A1 A2 A3 A4 A5 A6 A7 A8 A9 A10 A11 A12 A13 A14 A15 A16 A17].
     assert (E : rd = length d) by lia.
     rewrite wr_line_loop_eq, (sg_peek c d A4 A5). cbv zeta.
     match goal with |- context [rq_copy_byte ?x] => set (c0 := x) end.
     change (c_in_status c0) with (c_in_status c). rewrite (sg_live_closed _ A1). cbn [andb].
     unfold rq_copy_byte, rq_at_end. change (k_len (c_in c0)) with (k_len (c_in c)). change (k_read (c_in c0)) with (k_read (c_in c)).
     rewrite A5, A6, E, Nat.leb_refl. exists c0. split; [reflexivity|]. rewrite app_nil_r. unfold c0. apply sg_cin_next. rewrite <- E. exact H.
-  - destruct (sg_skipn_cons d rd b u Hu) as (Hnth & Hu' & Hlt). pose proof H as [A1 A2 A3 A4 A5 A6 A7 A8 A9 A10 A11 A12 A13 A14 A15].
+  - destruct (sg_skipn_cons d rd b u Hu) as (Hnth & Hu' & Hlt). pose proof H as [A1 A2 A3 A4 A5 A6 A7 A8 A9 A10 A11 A12 A13 A14 A15 A16 A17].
     cbn [sg_no_lf forallb] in Hnl. apply andb_prop in Hnl. destruct Hnl as [Hb Hnl]. apply negb_true_iff in Hb.
     cbn [length] in Hn. destruct n as [|n]; [lia|].
     rewrite wr_line_loop_eq, (sg_peek c d A4 A5). cbv zeta. rewrite A6, Hnth.
@@ -53,7 +47,7 @@ Lemma sg_line_scan_lf d hdr prev rh t u2 : forall u1 c rd p n,
              sg_cin c' d (rd + length u1 + 1) (p ++ u1 ++ [LF]) hdr REQ_LINE prev rh t /\ skipn (rd + length u1 + 1) d = u2.
 Proof.
   induction u1 as [|b u1 IH]; intros c rd p n H Hu Hnl Hn.
-  - cbn [app] in Hu. destruct (sg_skipn_cons d rd LF u2 Hu) as (Hnth & Hu' & Hlt). pose proof H as [A1 A2 A3 A4 A5 A6 A7 A8 A9 A10 A11 A12 A13 A14 A15].
+  - cbn [app] in Hu. destruct (sg_skipn_cons d rd LF u2 Hu) as (Hnth & Hu' & Hlt). pose proof H as [A1 A2 A3 A4 A5 A6 A7 A8 A9 A10 A11 A12 A13 A14 A15 A16 A17].
     rewrite wr_line_loop_eq, (sg_peek c d A4 A5). cbv zeta. rewrite A6, Hnth.
     match goal with |- context [rq_copy_byte ?x] => set (c0 := x) end.
     change (c_in_status c0) with (c_in_status c). rewrite (sg_live_closed _ A1). cbn [andb].
@@ -63,7 +57,7 @@ Proof.
     assert (H0 : sg_cin c0 d rd p hdr REQ_LINE prev rh t) by (unfold c0; apply sg_cin_next; exact H).
     eexists. split; [reflexivity|]. cbn [length app]. replace (rd + 0 + 1)%nat with (S rd) by lia.
     split; [apply sg_cin_adv; assumption|exact Hu'].
-  - cbn [app] in Hu. destruct (sg_skipn_cons d rd b _ Hu) as (Hnth & Hu' & Hlt). pose proof H as [A1 A2 A3 A4 A5 A6 A7 A8 A9 A10 A11 A12 A13 A14 A15].
+  - cbn [app] in Hu. destruct (sg_skipn_cons d rd b _ Hu) as (Hnth & Hu' & Hlt). pose proof H as [A1 A2 A3 A4 A5 A6 A7 A8 A9 A10 A11 A12 A13 A14 A15 A16 A17].
     cbn [sg_no_lf forallb] in Hnl. apply andb_prop in Hnl. destruct Hnl as [Hb Hnl]. apply negb_true_iff in Hb.
     cbn [length] in Hn. destruct n as [|n]; [lia|].
     rewrite wr_line_loop_eq, (sg_peek c d A4 A5). cbv zeta. rewrite A6, Hnth.
@@ -121,21 +115,13 @@ Proof.
   set (t2 := htp_parse_request_line g (t <| t_request_line := Some line |>)).
   destruct (sg_tx_line_facts t m u p W H09) as (E3 & _). cbv zeta in E3. fold line in E3. fold t2 in E3.
   set (t3 := sg_tx_line t line) in *.
-  set (c2 := c1 <| c_txs := [Some t2] |>).
+  set (c2 := sg_settx w t2 c1).
   assert (H2 : sg_cin c2 d rd (line ++ [CR; LF]) None REQ_LINE prev None t2) by (eapply sg_cin_txs; exact H1).
   unfold rq_with_tx. rewrite (ci_tx _ _ _ _ _ _ _ _ _ H2). unfold tx_state_request_line, tx_get. rewrite (sg_cin_slot _ _ _ _ _ _ _ _ _ H2).
   rewrite E3. rewrite (sg_tx_put c2 d rd _ _ _ _ _ t2 t3 H2).
   rewrite !(wr_run_hook cb Hcb).
   eexists. split; [reflexivity|].
   eapply sg_cin_clear. eapply sg_cin_state. apply sg_cin_hook. apply sg_cin_hook. eapply sg_cin_txs. exact H2.
-Qed.
-
-(* ---- REQ_IDLE on the first chunk: the transaction is created ---- *)
-Lemma sg_pass_idle c d : wr_idle c d -> d <> [] ->
-  exists c', rq_iter cb g false c = inr c' /\ sg_cin c' d 0 [] None REQ_LINE (Some REQ_LINE) None wr_t1.
-Proof.
-  intros Hi Hne. destruct (wr_pass_idle cb g Hcb c d Hi Hne) as (c' & E & Inv). exists c'. split; [exact E|].
-  apply (sg_cin_of_inv c' d 0 0 _ _ _ _ Inv); lia.
 Qed.
 
 (* ---- the pass through REQ_LINE that sees the LF ---- *)
@@ -163,13 +149,13 @@ Lemma sg_pass_protocol c d rd t : sg_cin c d rd [] None REQ_PROTOCOL (Some REQ_P
   exists c', rq_iter cb g false c = inr c' /\
     sg_cin c' d rd [] None REQ_HEADERS (Some REQ_HEADERS) (Some H_REQUEST_HEADER_DATA) (t <| t_request_progress := c_HTP_REQUEST_HEADERS |>).
 Proof.
-  intros H H09. pose proof (sg_cin_slot _ _ _ _ _ _ _ _ _ H) as Hsl. pose proof H as [A1 A2 A3 A4 A5 A6 A7 A8 A9 A10 A11 A12 A13 A14 A15].
+  intros H H09. pose proof (sg_cin_slot _ _ _ _ _ _ _ _ _ H) as Hsl. pose proof H as [A1 A2 A3 A4 A5 A6 A7 A8 A9 A10 A11 A12 A13 A14 A15 A16 A17].
   unfold rq_iter. rewrite A2. cbn [rq_state_fn]. unfold REQ_PROTOCOL_fn, rq_tx, in_txi, tx_get. rewrite A13, Hsl, H09. cbn [negb].
   unfold rq_to_headers.
   assert (H1 : sg_cin (c <| c_in_state := REQ_HEADERS |>) d rd [] None REQ_HEADERS (Some REQ_PROTOCOL) None t) by (eapply sg_cin_state; exact H).
   rewrite (sg_tx_upd _ d rd _ _ _ _ _ t _ H1).
   set (t' := t <| t_request_progress := c_HTP_REQUEST_HEADERS |>).
-  set (c1 := c <| c_in_state := REQ_HEADERS |> <| c_txs := [Some t'] |>).
+  set (c1 := sg_settx w t' (c <| c_in_state := REQ_HEADERS |>)).
   assert (H2 : sg_cin c1 d rd [] None REQ_HEADERS (Some REQ_PROTOCOL) None t') by (eapply sg_cin_txs; exact H1).
   change (c_in_status c1) with (c_in_status c). rewrite (sg_live_tunnel _ A1).
   unfold req_handle_state_change. change (c_in_state_previous c1) with (c_in_state_previous c). rewrite A3.
@@ -178,7 +164,101 @@ Proof.
   change (t_request_progress t') with c_HTP_REQUEST_HEADERS. change ((c_HTP_REQUEST_HEADERS =? c_HTP_REQUEST_HEADERS)%Z) with true. cbv iota.
   unfold req_receiver_set, req_receiver_finalize_clear. change (k_receiver_hook (c_in c1)) with (k_receiver_hook (c_in c)). rewrite A11.
   eexists. split; [reflexivity|].
-  clearbody c1. destruct H2 as [B1 B2 B3 B4 B5 B6 B7 B8 B9 B10 B11 B12 B13 B14 B15].
+  clearbody c1. destruct H2 as [B1 B2 B3 B4 B5 B6 B7 B8 B9 B10 B11 B12 B13 B14 B15 B16 B17].
   constructor; try assumption; try reflexivity; cbn; rewrite ?B2, ?B6; try reflexivity; lia.
 Qed.
 End Line.
+
+(* ---- REQ_IDLE with data available: the next transaction is created ---- *)
+(* the request side between two requests: no current transaction; p = the bytes of the next request line already seen
+   (REQ_FINALIZE looks at them to decide whether a new request starts) *)
+Record sg_idl (c : connp) (d : bytes) (rd : nat) (p : bytes) (done : list (option tx)) (fl : N) (prev : option req_state) : Prop := mk_sg_idl {
+  il_status : sg_live (c_in_status c);
+  il_state : c_in_state c = REQ_IDLE;
+  il_prev : c_in_state_previous c = prev;
+  il_data : k_data (c_in c) = Some d;
+  il_len : k_len (c_in c) = length d;
+  il_read : k_read (c_in c) = rd;
+  il_rd : (rd <= length d)%nat;
+  il_cons : (k_consume (c_in c) <= rd)%nat;
+  il_seen : sg_olist (k_buf (c_in c)) ++ firstn (rd - k_consume (c_in c)) (skipn (k_consume (c_in c)) d) = p;
+  il_hdr : k_header (c_in c) = None;
+  il_rh : k_receiver_hook (c_in c) = None;
+  il_rcv : (k_receiver (c_in c) <= rd)%nat;
+  il_tx : c_in_tx c = None;
+  il_txs : c_txs c = done;
+  il_shift : c_txs_shifted c = 0%nat;
+  il_flags : c_conn_flags c = fl;
+  il_onext : c_out_next_tx_index c = 0%nat }.
+
+(* htp_tx_create + htp_tx_state_request_start *)
+Definition sg_t1 (k : nat) : tx := tx_new k k <| t_request_progress := c_HTP_REQUEST_LINE |>.
+(* HTP_CONN_PIPELINED: a transaction is created while an earlier one has no response yet *)
+Definition sg_next_flags (done : list (option tx)) (fl : N) : N := if (0 <? length done)%nat then flag_set fl c_HTP_CONN_PIPELINED else fl.
+
+Lemma sg_cin_from_idl c c' d rd p done fl fl' prev t : sg_idl c d rd p done fl prev ->
+  c_in_status c' = c_in_status c -> c_in_state c' = REQ_LINE -> c_in_state_previous c' = c_in_state_previous c -> c_in c' = c_in c ->
+  c_in_tx c' = Some (length done) -> c_txs c' = done ++ [Some t] -> c_txs_shifted c' = 0%nat -> c_conn_flags c' = fl' -> c_out_next_tx_index c' = 0%nat ->
+  sg_cinw (mk_sg_world done fl') c' d rd p None REQ_LINE prev None t.
+Proof.
+  intros [A1 A2 A3 A4 A5 A6 A7 A8 A9 A10 A11 A12 A13 A14 A15 A16 A17] E1 E2 E3 E4 E5 E6 E7 E8 E9.
+  constructor; cbn [w_done w_flags]; rewrite ?E1, ?E3, ?E4; assumption.
+Qed.
+
+Section Idle.
+Variable cb : cb_oracle.
+Variable g : cfg.
+Hypothesis Hcb : wr_all_ok cb.
+
+(* the parser after htp_connp_tx_create + htp_tx_state_request_start, c0 = the parser with the connection flag set *)
+Definition sg_idle_mk (done : list (option tx)) (c0 : connp) : connp :=
+  let k := length done in
+  let c1 := c0 <| c_txs := done ++ [Some (tx_new k k)] |> <| c_in_tx := Some k |> <| c_in_content_length := (-1)%Z |>
+               <| c_in_body_data_left := (-1)%Z |> <| c_in_chunk_request_index := c_in_chunk_count c0 |> in
+  (wr_hook_ev H_REQUEST_START k None false c1 <| c_in_state := REQ_LINE |>) <| c_txs := done ++ [Some (sg_t1 k)] |>.
+Lemma sg_idle_mk_proj done c0 :
+  c_in_status (sg_idle_mk done c0) = c_in_status c0 /\ c_in_state (sg_idle_mk done c0) = REQ_LINE /\
+  c_in_state_previous (sg_idle_mk done c0) = c_in_state_previous c0 /\ c_in (sg_idle_mk done c0) = c_in c0 /\
+  c_in_tx (sg_idle_mk done c0) = Some (length done) /\ c_txs (sg_idle_mk done c0) = done ++ [Some (sg_t1 (length done))] /\
+  c_txs_shifted (sg_idle_mk done c0) = c_txs_shifted c0 /\ c_conn_flags (sg_idle_mk done c0) = c_conn_flags c0 /\
+  c_out_next_tx_index (sg_idle_mk done c0) = c_out_next_tx_index c0.
+Proof. repeat split. Qed.
+
+Lemma sg_idle_fn c d rd p done fl prev : sg_idl c d rd p done fl prev -> (rd < length d)%nat ->
+  (g_max_tx g = 0 \/ length done <= g_max_tx g)%nat ->
+  exists c0, REQ_IDLE_fn cb g c = (ST_OK, sg_idle_mk done c0) /\
+    c_conn_flags c0 = sg_next_flags done fl /\ c_in_status c0 = c_in_status c /\ c_in_state_previous c0 = c_in_state_previous c /\
+    c_in c0 = c_in c /\ c_txs_shifted c0 = 0%nat /\ c_out_next_tx_index c0 = 0%nat.
+Proof.
+  intros [A1 A2 A3 A4 A5 A6 A7 A8 A9 A10 A11 A12 A13 A14 A15 A16 A17] Hlt Hmax.
+  unfold REQ_IDLE_fn, rq_at_end. rewrite A5, A6.
+  assert (L : (length d <=? rd)%nat = false) by (apply Nat.leb_gt; exact Hlt). rewrite L.
+  unfold connp_tx_create. rewrite A14, A17.
+  assert (Lm : ((0 <? g_max_tx g) && (g_max_tx g <? length done))%nat = false).
+  { destruct Hmax as [E|E]; [rewrite E; reflexivity|]. apply andb_false_iff. right. apply Nat.ltb_ge. exact E. }
+  rewrite Lm.
+  set (c0 := if (0 <? length done)%nat then c <| c_conn_flags ::= (fun f => flag_set f c_HTP_CONN_PIPELINED) |> else c).
+  assert (F0 : c_conn_flags c0 = sg_next_flags done fl /\ c_in_status c0 = c_in_status c /\ c_in_state_previous c0 = c_in_state_previous c /\
+               c_in c0 = c_in c /\ c_txs_shifted c0 = 0%nat /\ c_out_next_tx_index c0 = 0%nat /\ c_txs c0 = done).
+  { unfold c0, sg_next_flags. destruct (0 <? length done)%nat; cbn; rewrite ?A16; repeat split; assumption. }
+  clearbody c0. destruct F0 as (F1 & F2 & F3 & F4 & F5 & F6 & F7). rewrite F5, F7. cbn [Nat.add].
+  unfold tx_state_request_start. rewrite (wr_run_hook cb Hcb). cbv iota.
+  cbn [c_in_tx wr_hook_ev emit bump_hook set].
+  match goal with |- context [tx_upd ?x (length done) ?f] => set (c2 := x) end.
+  assert (X2 : c_txs c2 = done ++ [Some (tx_new (length done) (length done))]) by reflexivity.
+  assert (Y2 : c_txs_shifted c2 = 0%nat) by exact F5.
+  rewrite (wr_tx_upd_ok c2 _ _ _ (sg_slot_at c2 done _ X2 Y2)), (sg_tx_put_at c2 done _ _ X2 Y2).
+  exists c0. split; [reflexivity|]. repeat split; assumption.
+Qed.
+
+Lemma sg_pass_idle c d rd p done fl prev : sg_idl c d rd p done fl prev -> (rd < length d)%nat ->
+  (g_max_tx g = 0 \/ length done <= g_max_tx g)%nat ->
+  exists c', rq_iter cb g false c = inr c' /\
+    sg_cinw (mk_sg_world done (sg_next_flags done fl)) c' d rd p None REQ_LINE (Some REQ_LINE) None (sg_t1 (length done)).
+Proof.
+  intros H Hlt Hmax. destruct (sg_idle_fn c d rd p done fl prev H Hlt Hmax) as (c0 & E1 & F1 & F2 & F3 & F4 & F5 & F6).
+  destruct (sg_idle_mk_proj done c0) as (P1 & P2 & P3 & P4 & P5 & P6 & P7 & P8 & P9).
+  apply (sg_iter_ok cb g c (sg_idle_mk done c0) d rd p None REQ_LINE prev None _); [rewrite (il_state _ _ _ _ _ _ _ H); exact E1| |discriminate].
+  apply (sg_cin_from_idl c _ d rd p done fl _ prev _ H); congruence.
+Qed.
+End Idle.
